@@ -93,6 +93,7 @@ type streamT struct {
 	Cuts  string `json:"cuts"`
 	data  []byte
 	cuts  []int
+	then  *streamT // the stream of the NEXT connection (op "reconnect"), for the "stale" clause of the statement
 }
 
 var trailers = [3][]byte{
@@ -163,8 +164,12 @@ func (s *streamT) describe() map[string]any {
 		h = h[:48]
 		more = fmt.Sprintf("… (%d bytes; body byte i = fill pattern %d)", len(s.data), s.Fill)
 	}
-	return map[string]any{"type": s.Typ, "version": fmt.Sprintf("0x%04x", s.Ver), "declared_len": s.L, "body_bytes_present": s.Body,
+	m := map[string]any{"type": s.Typ, "version": fmt.Sprintf("0x%04x", s.Ver), "declared_len": s.L, "body_bytes_present": s.Body,
 		"trailing_bytes": s.Trail, "fill": s.Fill, "cuts": s.Cuts, "n": len(s.data), "hex": hex.EncodeToString(h) + more}
+	if s.then != nil {
+		m["stream_of_the_next_connection"] = s.then.describe()
+	}
+	return m
 }
 
 var (
@@ -174,16 +179,20 @@ var (
 
 // streams lists the stream alphabet of a tier in a fixed order.
 func streams(thorough bool) (out []*streamT, bounds map[string]any) {
-	lmax := 48
+	lmax22, lmaxOther := 64, 48
 	if thorough {
-		lmax = 80
+		lmax22, lmaxOther = 128, 64
 	}
 	// F1: short records, every cut
 	for _, typ := range allTypes {
 		for _, ver := range allVersions {
 			full := thorough || typ == 22
-			if !full && ver != 0x0301 && ver != 0x0303 {
+			if !full && ver != 0x0301 && ver != 0x0303 && ver != 0x0305 {
 				continue
+			}
+			lmax := lmaxOther
+			if typ == 22 {
+				lmax = lmax22
 			}
 			for L := 0; L <= lmax; L++ {
 				for t := 0; t <= 8; t++ {
@@ -191,7 +200,7 @@ func streams(thorough bool) (out []*streamT, bounds map[string]any) {
 						continue
 					}
 					for fill := 0; fill < 3; fill++ {
-						if !full && fill != 0 {
+						if !full && fill == 2 {
 							continue
 						}
 						out = append(out, mkStream(typ, ver, L, L, t, fill, "all"))
@@ -233,13 +242,13 @@ func streams(thorough bool) (out []*streamT, bounds map[string]any) {
 		}
 	}
 	bounds = map[string]any{
-		"F1_short_records":       fmt.Sprintf("declared length 0..%d x 0..8 trailing bytes x 3 content patterns, every cut position; record types %v x versions %04x (quick: full product for type 22, versions 0301/0303 x trailing {0,4,8} x pattern 0 for the other types)", lmax, allTypes, allVersions),
+		"F1_short_records":       fmt.Sprintf("declared length 0..%d (type 22) / 0..%d (other types) x 0..8 trailing bytes x 3 content patterns, every cut position; record types %v x versions %04x (quick: full product for type 22; versions 0301/0303/0305 x trailing {0,4,8} x patterns {0,1} for the other types)", lmax22, lmaxOther, allTypes, allVersions),
 		"F3_long_records":        "declared length {255,256,257,1000,16383,16384,16385,18432} x trailing {0,8} x 3 patterns; cut positions restricted to 0..8, +-3 around 5+L and n, powers of two (stated bound of the design)",
 		"F4a_truncated":          "declared length {49,255,256,257,1000,16384,18432,18433,32767,32768,65530..65535} with 0..12 body bytes present, every cut",
 		"F4b_illegal_complete":   "complete records of declared length {18433,32768,65530..65535} x trailing {0,8}, restricted cut set",
 		"caller_buffer":          "every read with a caller buffer of exactly r bytes and of r+3 bytes (slack poisoned)",
 		"every_truncation":       "eof and timeout transitions from every state",
-		"per_stream_state_cap":   "64 x (cut positions + 2)",
+		"per_stream_state_cap":   "8 x (cut positions + 2)",
 		"zero_reads":             "(0,nil) read from every state",
 		"GetClientHello_as_step": "GetClientHello is a transition from every state (its effect on the state is explored, not assumed away)",
 	}
@@ -250,7 +259,7 @@ func streams(thorough bool) (out []*streamT, bounds map[string]any) {
 // operations and the runner (one real object being driven)
 
 type op struct {
-	K   string `json:"op"` // read read0 eof timeout get recheck
+	K   string `json:"op"` // read read0 eof timeout get recheck reconnect
 	N   int    `json:"n,omitempty"`
 	Pad int    `json:"buffer_slack,omitempty"`
 }
@@ -301,7 +310,18 @@ func hexHead(b []byte) string {
 	return hex.EncodeToString(b)
 }
 
-func (r *runner) do(o op) *finding {
+func (r *runner) do(o op) (f *finding) {
+	defer func() {
+		if p := recover(); p != nil {
+			if he, ok := p.(mc.HarnessError); ok {
+				panic(he)
+			}
+			if o.K == "read" {
+				r.k += o.N
+			}
+			f = &finding{"wrapper-panicked", fmt.Sprintf("%s at stream offset %d panicked: %v", o.K, r.k, p)}
+		}
+	}()
 	switch o.K {
 	case "read":
 		if r.k+o.N > len(r.s.data) || o.N <= 0 {
@@ -354,6 +374,15 @@ func (r *runner) do(o op) *finding {
 		if !v.Admissible(err == nil, rec) {
 			return classify(v, delivered, rec, err)
 		}
+	case "reconnect":
+		// the connection ends; the next connection is accepted and wrapped like serveConn does
+		r.obj.Close()
+		if r.s.then == nil {
+			panic(mc.HarnessError{Msg: "reconnect without a second stream"})
+		}
+		r.s, r.k, r.held, r.heldCopy = r.s.then, 0, nil, nil
+		r.sc = &script{}
+		r.obj = hack.NewHijackClientHelloConn(r.sc)
 	case "recheck":
 		if r.held != nil && !bytes.Equal(r.held, r.heldCopy) {
 			return &finding{"reported-slice-changed-by-later-reads", fmt.Sprintf("GetClientHello handed out %s; after further reads the same slice holds %s", hexHead(r.heldCopy), hexHead(r.held))}
@@ -490,7 +519,7 @@ func (x *searcher) explore(s *streamT) (classes int) {
 	nodes := []node{{parent: -1}}
 	index := map[string]int32{x.key(0, 0, nil): 0}
 	perOffset := map[int]int64{0: 1}
-	limit := 64 * (len(s.cuts) + 2)
+	limit := 8 * (len(s.cuts) + 2)
 	seenClass := map[string]bool{}
 	pads := []int{0, 3}
 	for qi := 0; qi < len(nodes); qi++ {
@@ -612,7 +641,8 @@ func TestCheck(t *testing.T) {
 	if thorough {
 		budget = 13 * time.Minute
 	}
-	deadline := time.Now().Add(budget)
+	tStart := time.Now()
+	deadline := tStart.Add(budget)
 	rep.Info["rule"] = "part A: explicit-state BFS on the real hack.HijackClientHelloConn; state key = (stream offset, bytes in buf, expectedLen) = whole private state; from every state: read(r) for every r allowed by the cut set (caller buffer r and r+3), (0,nil) read, EOF, timeout, GetClientHello; oracle = reference verdict (set of admissible outcomes) on the delivered prefix + pass-through of (n, err, bytes) + stability of the slice handed out. part A2: all 2^(n-1) segmentations of short streams on fresh objects. part B: real TLS clients through the wrapper into a real tls.Server and the real proxyserver, first flight cut at every position (thorough: every pair). distinct_nontrivial = stream feature signatures (type/version/declared length/bytes present/trailing/cut set) whose search met >= 2 reference verdict classes, plus distinct handshake segmentations actually observed at the wrapper"
 	rep.Assume(
 		"the private state of hack.HijackClientHelloConn is (wrapped conn, buf, expectedLen, VerboseLogFunc); checked by reflection at start-up, a new field is a harness error",
@@ -679,6 +709,7 @@ func TestCheck(t *testing.T) {
 			}
 		}
 	}
+	rep.SetMax("part_A_wall_ms_max_over_shards", time.Since(tStart).Milliseconds())
 	rep.Add("streams", nStreams)
 	rep.Add("states", x.states)
 	rep.Add("transitions", x.transitions)
@@ -733,6 +764,42 @@ func TestCheck(t *testing.T) {
 			}
 		}
 	}
+	// ---- part A3: two connections one after the other (nothing of the first may show up in the second: "stale")
+	var seqTraces int64
+	firsts := []*streamT{mkStream(22, 0x0303, 7, 7, 0, 0, "all"), mkStream(22, 0x0301, 3, 3, 8, 1, "all"), mkStream(22, 0x0303, 40, 10, 0, 0, "all")}
+	var seconds []*streamT
+	for L := 0; L <= 4; L++ {
+		seconds = append(seconds, mkStream(22, 0x0303, L, L, 0, 1, "all"))
+	}
+	for body := 0; body <= 4; body++ {
+		seconds = append(seconds, mkStream(22, 0x0301, 20, body, 0, 0, "all"))
+	}
+	seconds = append(seconds, mkStream(23, 0x0303, 2, 2, 2, 0, "all"), mkStream(22, 0x0303, 2, 2, 3, 2, "all"))
+	for fi, f0 := range firsts {
+		for si, s2 := range seconds {
+			if (fi*len(seconds)+si)%of != shard {
+				continue
+			}
+			f := *f0
+			f.then = s2
+			compositions(len(s2.data), func(parts []int) {
+				ops := []op{{K: "read", N: len(f.data), Pad: 3}, {K: "get"}, {K: "reconnect"}, {K: "get"}}
+				for _, p := range parts {
+					ops = append(ops, op{K: "read", N: p}, op{K: "get"})
+				}
+				ops = append(ops, op{K: "eof"}, op{K: "get"})
+				fs, _ := runFresh(&f, ops)
+				seqTraces++
+				for j, fd := range fs {
+					if fd != nil {
+						x.record(&f, ops[:j+1], fd)
+					}
+				}
+			})
+		}
+	}
+	rep.Add("two_connection_traces", seqTraces)
+	rep.SetMax("part_A_A2_A3_wall_ms_max_over_shards", time.Since(tStart).Milliseconds())
 	rep.Add("segmentations_enumerated_explicitly", compTraces)
 	rep.Add("fresh_object_extreme_traces", freshTraces)
 	rep.Info["explicit_segmentation_bound"] = fmt.Sprintf("all 2^(n-1) segmentations of every stream with n <= %d over (type,version) in {22/0303,22/0300,22/0304,22/0305,23/0303}, with GetClientHello after every read and only at the end", ncomp)
@@ -759,19 +826,51 @@ func TestCheck(t *testing.T) {
 			rep.HarnessError("part A finding %q did not reproduce on a fresh object (%d/5) — state restoring and the real object disagree: %s", f.kind, ok, f.what)
 			continue
 		}
+		f.path = minimize(f.s, f.path, f.kind)
 		rep.Add("violating_transitions", f.count)
 		rep.Violate(map[string]any{"kind": f.kind, "seam": "hack.HijackClientHelloConn"},
 			map[string]any{"stream": f.s.describe(), "ops_from_a_fresh_wrapper": f.path, "occurrences_in_this_shard": f.count},
 			"%s [stream type=%d version=%04x declared=%d present=%d trailing=%d; ops %s]", f.what, f.s.Typ, f.s.Ver, f.s.L, f.s.Body, f.s.Trail, opsString(f.path))
 	}
 
+	// the verdicts of part A are on disk before the real stacks run (a wrapper that panics would kill the
+	// process from inside proxyserver's connection goroutine)
+	rep.Write()
+
 	// ---- part B: real handshakes
-	hs := runHandshakePart(t, rep, shard, of, thorough, deadline)
-	rep.Add("traces_validated_against_impl", compTraces+freshTraces+hs)
-	rep.Add("evaluations", x.transitions+compTraces+freshTraces+hs)
+	var hs int64
+	if x.finds["wrapper-panicked"] != nil {
+		rep.NotExhaustive("part B not run: part A shows that the wrapper panics")
+	} else {
+		hs = runHandshakePart(t, rep, shard, of, thorough, deadline)
+	}
+	rep.SetMax("total_wall_ms_max_over_shards", time.Since(tStart).Milliseconds())
+	rep.Add("traces_validated_against_impl", compTraces+freshTraces+seqTraces+hs)
+	rep.Add("evaluations", x.transitions+compTraces+freshTraces+seqTraces+hs)
 	if rep.DistinctCount("distinct_outcomes") < 4 && shard == 0 {
 		rep.HarnessError("vacuity: only %d distinct (verdict, outcome) classes were observed", rep.DistinctCount("distinct_outcomes"))
 	}
+}
+
+// minimize drops operations from a confirmed counterexample as long as the last
+// operation still fails in the same way on a fresh object (greedy, deterministic).
+func minimize(s *streamT, path []op, kind string) []op {
+	reproduces := func(p []op) bool {
+		fs, _ := runFresh(s, p)
+		last := fs[len(fs)-1]
+		return last != nil && last.kind == kind
+	}
+	for changed := true; changed; {
+		changed = false
+		for i := 0; i < len(path)-1; i++ {
+			cand := append(append([]op(nil), path[:i]...), path[i+1:]...)
+			if reproduces(cand) {
+				path, changed = cand, true
+				break
+			}
+		}
+	}
+	return path
 }
 
 func opsString(ops []op) string {
